@@ -1,0 +1,98 @@
+//! Verification hooks; compiled only with `--cfg orx_parallel_verif`.
+//!
+//! * `thread::scope` is a sequential stand-in for `std::thread::scope` with the same
+//!   signatures: every spawned closure runs to completion at its spawn point.
+//!   It is used by `core::runner` only (through a cfg-gated path shadow), so that a
+//!   symbolic-execution engine that cannot run OS threads can execute the runner.
+//! * `on_*` functions are empty observation points; a checker replaces them statically.
+//! * `api` exposes the crate-private arithmetic of the runner as plain integers.
+
+use core::marker::PhantomData;
+
+/// Address of the concurrent iterator handed to the runner of the computation that
+/// started last (null before the first run).
+pub static mut ITER_PTR: *const u8 = core::ptr::null();
+
+/// Called at the top of `Runner::run`, `Runner::run_map` and `Runner::reduce`.
+#[inline(never)]
+pub fn on_run_begin<I: orx_concurrent_iter::ConcurrentIterX>(iter: &I) {
+    unsafe { ITER_PTR = iter as *const I as *const u8 };
+}
+
+/// Called when a thread scope is entered.
+#[inline(never)]
+pub fn on_scope_begin() {}
+
+/// Called when all closures of a thread scope have been joined.
+#[inline(never)]
+pub fn on_scope_end() {}
+
+/// Called by the spawning thread right after it has spawned its last closure.
+#[inline(never)]
+pub fn on_all_spawned() {}
+
+/// Called when a spawned closure starts.
+#[inline(never)]
+pub fn on_task_begin() {}
+
+/// Called when a spawned closure has returned.
+#[inline(never)]
+pub fn on_task_end() {}
+
+/// Sequential stand-in for the part of `std::thread` used by the runner.
+pub mod thread {
+    use super::*;
+
+    /// Stand-in for `std::thread::Scope`.
+    pub struct Scope<'scope, 'env: 'scope> {
+        scope: PhantomData<&'scope mut &'scope ()>,
+        env: PhantomData<&'env mut &'env ()>,
+    }
+
+    /// Stand-in for `std::thread::ScopedJoinHandle`.
+    pub struct ScopedJoinHandle<'scope, T> {
+        result: T,
+        scope: PhantomData<&'scope ()>,
+    }
+
+    /// Stand-in for `std::thread::scope`.
+    pub fn scope<'env, F, T>(f: F) -> T
+    where
+        F: for<'scope> FnOnce(&'scope Scope<'scope, 'env>) -> T,
+    {
+        on_scope_begin();
+        let scope = Scope {
+            scope: PhantomData,
+            env: PhantomData,
+        };
+        let result = f(&scope);
+        on_scope_end();
+        result
+    }
+
+    impl<'scope> Scope<'scope, '_> {
+        /// Runs `f` to completion and returns a handle holding its result.
+        pub fn spawn<F, T>(&'scope self, f: F) -> ScopedJoinHandle<'scope, T>
+        where
+            F: FnOnce() -> T + Send + 'scope,
+            T: Send + 'scope,
+        {
+            on_task_begin();
+            let result = f();
+            on_task_end();
+            ScopedJoinHandle {
+                result,
+                scope: PhantomData,
+            }
+        }
+    }
+
+    impl<T> ScopedJoinHandle<'_, T> {
+        /// Returns the result of the closure.
+        pub fn join(self) -> std::thread::Result<T> {
+            Ok(self.result)
+        }
+    }
+}
+
+pub use crate::core::verif_api as api;
